@@ -242,6 +242,9 @@ def explore_shard(acc, shard):
         case = {"kind": "timeline", "timeline": TC.fmt_tl(tl), "beats": [str(b) for b in beats], "free_points": ["3"], "exact": False, "label": label}
         core.guard(acc, case)
         fails = check_timeline(tl, beats, False, with_meta=True, free_points=[Fraction(3)])
+        # the same under a decimal context of 6 digits (an ambient setting of the calling thread)
+        with core.decimal_precision(6):
+            fails += [dict(f, clause=f["clause"] + " (decimal context precision 6)") for f in check_timeline(tl, beats, False, with_meta=False, free_points=[])]
         acc.count("states")
         acc.count("transitions")
         acc.count("evaluations", len(beats) * 9 * 4)
